@@ -20,6 +20,36 @@ from .c06 import get_interp
 ZB = "pysnark.zkinterface.backend"
 
 
+def _values_stored_canonical(m, fi):
+    """the list a value-vector writer walks holds canonical elements: every call passes a module-level list all of whose appends
+    store `E % modulus`, and the modulus cannot change once such a list is non-empty (every re-binding of `modulus` in a function
+    is preceded by a refusal when the lists hold something)"""
+    from .c10 import _stored_canonical
+    if len(fi.params) < 2:
+        return False
+    lists = set()
+    for g in m.functions.values():
+        for c in ast.walk(g.node):
+            if isinstance(c, ast.Call) and norm(c.func) == fi.name and len(c.args) >= 2:
+                if not isinstance(c.args[1], ast.Name):
+                    return False
+                lists.add(c.args[1].id)
+    if not lists or not all(_stored_canonical(m, l_, "modulus") for l_ in lists):
+        return False
+    for g in m.functions.values():
+        if isinstance(g.node, ast.Lambda):
+            continue
+        for a in ast.walk(g.node):
+            if isinstance(a, ast.Assign) and any(norm(t) == "modulus" for t in a.targets) and any(
+                    isinstance(x, ast.Global) and "modulus" in x.names for x in ast.walk(g.node)):
+                guards = [s for s in g.node.body if isinstance(s, ast.If) and s.body and isinstance(s.body[-1], ast.Raise) and not s.orelse
+                          and all(l_ in {n.id for n in ast.walk(s.test) if isinstance(n, ast.Name)} for l_ in lists)
+                          and isinstance(s.test, (ast.BoolOp, ast.Name)) and (not isinstance(s.test, ast.BoolOp) or isinstance(s.test.op, ast.Or))]
+                if not guards or g.node.body.index(guards[0]) > next((i for i, s in enumerate(g.node.body) if any(a is x for x in ast.walk(s))), 10 ** 6):
+                    return False
+    return True
+
+
 _MSG_WRITER = {"CircuitHeader": "write_circuit", "Witness": "write_witness", "ConstraintSystem": "write_constraints"}
 
 
@@ -109,7 +139,8 @@ def rule_bytes(repo, rule):
             # value provenance
             vdef = norm(V)
             if not (vdef == "modulus - 1" or (isinstance(V, ast.BinOp) and isinstance(V.op, ast.Mod) and norm(V.right) == "modulus")):
-                problems.append("value `%s` is not reduced modulo the field prime" % vdef)
+                if not (vdef in ("__e0", "vals[__i0]") and _values_stored_canonical(m, fi)):
+                    problems.append("value `%s` is not reduced modulo the field prime" % vdef)
             outer = [(f, s_) for f, s_ in loops if f not in jloop]
             if outer:
                 f0, s0 = outer[0]
